@@ -116,6 +116,38 @@ check("C13", "fault_enumeration",
       "crash-point / torn-write enumeration on the real persistent driver + schedule DFS for readers + exhaustive migration inputs",
       "DESIGN.md §4 C13")
 
+# Extensions made after the first version of each check (appended to the claim text); see DESIGN.md §4/§6.
+EXT = {
+ "C01": " Also: schedule DFS of withdrawals (settlement succeeding and failing) racing credits, with the invariant 'the sum changes only by the credit a successful withdrawal settled'; the BalanceStore is the real payment.contractPayment proxy; BlockNumberProvider wired as in runPool; BFS keys include the driver's complete internal state.",
+ "C02": " Also: prices that put elapsed*price just below/at 2^31, 2^32, 2^53, 2^63, 2^64; time passing inside a keep-alive; schedule DFS of overlapping keep-alives and reconnects of one client with a clock thread and follow-up keep-alives in both nonce orders (serial-order differential incl. what the next keep-alive bills); keep-alives continuing below the minimum balance; billing keep-alives whose badger transactions lose 1..7 commit races in a row (injected at the library's commit) charge what an undisturbed one charges.",
+ "C03": " Also: the client sharing its wallet with its first host; the cut-off reaching hosts that moved to a new connection (both orders of register/close); schedule DFS of two clients spending from one wallet.",
+ "C04": " Also: correctly signed requests in every parameter shape (all peer lists of length <=3 over {self, hosts, unknown id}, parameter grids for the other endpoints) must be accepted; 200 wallet signatures per encoding (with/without 0x); delay-bounded DFS of four concurrent verifications (3 valid, 1 altered) with statement points inside the request package.",
+ "C05": " Also: the badger library's record expiry follows the virtual clock (ticks of 1 s, 15 min, 16 min), so the expiry of nonce records is part of the histories; replays with the identity respelled or the nonce field bumped while the signature stays; racing first nonces of two identities.",
+ "C06": " Also: victims that are hosts; a differential probe on fresh worlds (later whitelisting, effect of closing the arrival connection, replay of the victim's last honoured request, next billing) against a twin pool that never saw the refused request; bursts of 150/1500 refusals; replayed/stale requests while the k-th store call fails once.",
+ "C07": " Also: the real contractPayment proxy as BalanceStore; racing withdrawals on badger; a withdrawal racing credits by node and by account (paid + remaining = earned); and the whole stack as the binary wires it - PaymentService -> ContractPayment (cache, contract reads, Balance events, OpSettle) -> the real VipnodePool contract on go-ethereum's simulated chain: BFS over {deposit, other wallet's deposit, credit +/-, forceSettle, operator drain, pool restart, withdraw} judged on what the wallet receives on chain, the contract's deposit/time lock/funds and the ledger.",
+ "C08": " Also: requested kinds the pool does not know or spelled differently; peers tracked with an aged timestamp; hosts that moved to another connection; hosts behind real jsonrpc2.Remote pairs answering with a result, an error reply or silence.",
+ "C09": " Also: keep-alive events arriving on any connection (state key = the pool's own registries, found by type); hosts over real Remote pairs that answer the whitelist request late or never and then hang up (serve loop must end, registration must go).",
+ "C10": " Also: scenarios with a clock thread and follow-up requests in both nonce orders; store-level check-in races; concurrent writers on the stream codec; the badger library's pre-commit moment as scheduling point.",
+ "C11": " Also: nodes listing themselves; schedule DFS of a report racing the peer's own check-in / re-registration (serial-order differential); reports of 40/300/1100 peers in permuted order.",
+ "C12": " Also: peers listed under another spelling of a registered id; check-in races and racing first nonces of two identities on both drivers.",
+ "C13": " Also: schedule DFS of concurrent writers (key-by-key database dump = some serial order); migrations of databases of realistic size (40-300 nodes with 128-hex ids, up to 150 nonce keys); operations that lose 0..200 commit races in a row (acknowledged => applied, also after reopen).",
+ "C14": " Also: scheduling points inside method dispatch; connections built without an explicit Client (as the binaries build them); a handler forwarding its context to an in-memory Local service.",
+ "C15": " Also: replies sent unsolicited and repeated 2-3 times; every numeric field of every request at the extremes of its type; the signed-hostile set on the badger driver; node ids that are prefixes/extensions of registered ones.",
+ "C16": " Also: the params member absent, null or not an array, in process and against the real binary over HTTP and WebSocket.",
+ "C17": " Also: HTTP client replies x {no size limit, limit} x {declared length, chunked}; messages handed out must stay unchanged while later ones are read; delay-bounded DFS of three concurrent writers on the stream codec.",
+ "C18": " Also: what local peers advertise in their own enode field (absent / same / unspecified / other address); 4-round histories of one host being offered, declared invalid (by id or URI) or left alone; rounds against a slow pool and a node whose RPCs take time and honour their context.",
+ "C19": " Also: link-local IPv6 addresses with a zone; every ordered pair of 6 registrations x 2 endpoints x same/new connection (re-registration); delay-bounded DFS of 2-3 hosts registering at once through the production server and of a re-registration racing a peer request.",
+ "C20": " Also: lifecycle histories against a pool that takes 12 s to answer a keep-alive (cadence, Stop during a pending keep-alive); the CLI probe is judged by the process exiting (refused) versus logging its registration or still running after 90 s (accepted).",
+}
+NOTE_FIX = {
+ "C05": ("badger TTL expiry (real time) not explored; ", ""),
+ "C20": ("the CLI probe waits 2.5 s of real time per interval string to decide 'accepted' (process still running or registered)", "the CLI probe decides 'refused' by the process exiting and 'accepted' by its registration log line or by still running after 90 s"),
+}
+for pid, add in EXT.items():
+    CHECKS[pid]["text"] += add
+for pid, (old, new) in NOTE_FIX.items():
+    CHECKS[pid]["note"] = CHECKS[pid]["note"].replace(old, new)
+
 ALL = ["C%02d" % i for i in range(1, 21)]
 NA_REASON = "check not built yet (work in progress; see DESIGN.md §4 for the planned model-checking design)"
 
